@@ -75,6 +75,19 @@ pub enum EOp {
     SetAnsiFont(usize),
     AddAnsiFont(usize),
     SwitchFontPage(usize),
+    // font table, palette, SAUCE and layer-property edits (second part of "font changes", "palette", "properties")
+    SetSauceFont(usize),
+    AddFont(u8),
+    SetFont(u8),
+    ReplaceFontUsage(usize, usize),
+    ChangeFontSlot(usize, usize),
+    RemoveFont(usize),
+    SwitchToPalette(u8),
+    UpdateSauce(u8),
+    UpdateLayerProps(usize, u8),
+    AddFloatingLayer,
+    PasteSixel(i32, i32),
+    UndoCaretPosition,
 }
 
 impl EOp {
@@ -162,7 +175,93 @@ fn apply(st: &mut EditState, op: &EOp) -> Result<(), String> {
         EOp::SetAnsiFont(p) => e(st.set_ansi_font(*p)),
         EOp::AddAnsiFont(p) => e(st.add_ansi_font(*p)),
         EOp::SwitchFontPage(p) => e(st.switch_to_font_page(*p)),
+        EOp::SetSauceFont(i) => {
+            let names = icy_engine::SAUCE_FONT_NAMES;
+            e(st.set_sauce_font(names[*i % names.len()]))
+        }
+        EOp::AddFont(v) => e(st.add_font(custom_font(*v))),
+        EOp::SetFont(v) => e(st.set_font(custom_font(*v))),
+        EOp::ReplaceFontUsage(a, b) => e(st.replace_font_usage(*a, *b)),
+        EOp::ChangeFontSlot(a, b) => e(st.change_font_slot(*a, *b)),
+        EOp::RemoveFont(a) => e(st.remove_font(*a)),
+        EOp::SwitchToPalette(v) => e(st.switch_to_palette(custom_palette(*v))),
+        EOp::UpdateSauce(v) => {
+            let size = st.get_buffer().get_size();
+            e(st.update_sauce_data(custom_sauce(*v, size)))
+        }
+        EOp::UpdateLayerProps(i, v) => {
+            // update_layer_properties indexes the layer table directly; an index past the end is not an
+            // editing operation on the document (nothing to edit), so it is reported as an error here
+            let Some(l) = st.get_buffer().layers.get(*i) else { return Err("no such layer".into()) };
+            let mut p = l.properties.clone();
+            p.title = format!("{}{}", p.title, v);
+            p.is_visible = v & 1 == 0;
+            p.is_locked = v & 2 != 0;
+            p.is_position_locked = v & 4 != 0;
+            p.has_alpha_channel = v & 8 != 0;
+            p.is_alpha_channel_locked = v & 16 != 0;
+            p.mode = match (v >> 5) & 3 {
+                1 => icy_engine::Mode::Chars,
+                2 => icy_engine::Mode::Attributes,
+                _ => icy_engine::Mode::Normal,
+            };
+            p.color = if v & 128 != 0 { Some(icy_engine::Color::new(*v, 7, 99)) } else { None };
+            e(st.update_layer_properties(*i, p))
+        }
+        EOp::AddFloatingLayer => e(st.add_floating_layer()),
+        EOp::PasteSixel(w, h) => {
+            let data: Vec<u8> = (0..(*w * *h * 4)).map(|i| (i * 7) as u8).collect();
+            e(st.paste_sixel(icy_engine::Sixel::from_data((*w, *h), 1, 1, data)))
+        }
+        EOp::UndoCaretPosition => e(st.undo_caret_position()),
     }
+}
+
+/// custom bitmap fonts for set_font / add_font: heights 8, 14, 16, 19; glyph bytes depend on the variant
+fn custom_font(v: u8) -> icy_engine::BitFont {
+    let height = [16u8, 8, 14, 19][(v % 4) as usize];
+    doc::make_font(&doc::FontD {
+        slot: 0,
+        name: format!("custom{v}"),
+        height,
+        builtin: None,
+        data: (0..256usize * height as usize).map(|i| (i as u8).wrapping_mul(v | 1).wrapping_add(v)).collect(),
+        sauce_name: None,
+    })
+}
+
+fn custom_palette(v: u8) -> icy_engine::Palette {
+    let n = [16usize, 16, 40, 8, 256, 1][(v % 6) as usize];
+    if v % 6 == 0 {
+        return icy_engine::Palette::dos_default();
+    }
+    let mut pal = icy_engine::Palette::new();
+    pal.clear();
+    for i in 0..n {
+        pal.push(icy_engine::Color::new((i as u8).wrapping_mul(v), 255 - i as u8, v ^ i as u8));
+    }
+    pal
+}
+
+/// the record's buffer size is the document's own size: the engine keeps that field in step with the buffer size
+/// (Buffer::set_size), a record that disagrees with the buffer is not a state an edit produces
+fn custom_sauce(v: u8, size: icy_engine::Size) -> Option<icy_engine::SauceData> {
+    if v % 4 == 0 {
+        return None;
+    }
+    Some(doc::make_sauce(
+        &doc::SauceD {
+            title: format!("title {v}").into_bytes(),
+            author: if v % 2 == 0 { b"author".to_vec() } else { vec![] },
+            group: format!("g{v}").into_bytes(),
+            comments: (0..(v % 5)).map(|i| format!("comment {i} of {v}").into_bytes()).collect(),
+            ice: v & 8 != 0,
+            letter_spacing: v & 16 != 0,
+            aspect_ratio: v & 32 != 0,
+            font: if v & 64 != 0 { Some("IBM VGA50".into()) } else { None },
+        },
+        size,
+    ))
 }
 
 // ---------------------------------------------------------------- snapshots
@@ -191,14 +290,21 @@ struct Snap {
 
 fn snap(st: &EditState) -> Snap {
     let b = st.get_buffer();
-    let mut fonts: Vec<(usize, String, (i32, i32), u32)> = b.font_iter().map(|(k, f)| (*k, f.name.clone(), (f.size.width, f.size.height), f.checksum)).collect();
+    // fonts are identified by name, size and a hash of their glyph bytes (the checksum field is only filled lazily)
+    let mut fonts: Vec<(usize, String, (i32, i32), u32)> =
+        b.font_iter().map(|(k, f)| (*k, f.name.clone(), (f.size.width, f.size.height), crate::rng::hash_bytes(&f.convert_to_u8_data()) as u32)).collect();
     fonts.sort();
     Snap {
         size: (b.get_width(), b.get_height()),
         modes: format!("{:?}/{:?}/{:?}/{:?}", b.buffer_type, b.ice_mode, b.palette_mode, b.font_mode),
         palette: (0..b.palette.len() as u32).map(|i| b.palette.get_rgb(i)).collect(),
         fonts,
-        sauce: b.get_sauce().as_ref().map(|s| format!("{:?}|{:?}|{:?}|{}", s.title, s.author, s.group, s.comments.len())),
+        sauce: b.get_sauce().as_ref().map(|s| {
+            format!(
+                "{:?}|{:?}|{:?}|{:?}|{:?}|{:?}|{:?}|ice={} ls={} ar={}|{:?}",
+                s.title, s.author, s.group, s.comments, s.data_type, s.buffer_size, s.font_opt, s.use_ice, s.use_letter_spacing, s.use_aspect_ratio, s.sauce_file_type
+            )
+        }),
         layers: b
             .layers
             .iter()
@@ -210,7 +316,14 @@ fn snap(st: &EditState) -> Snap {
                     role: format!("{:?}", l.role),
                     props: format!(
                         "vis={} lock={} poslock={} alpha={} alphalock={} mode={:?} color={:?} transp={}",
-                        l.properties.is_visible, l.properties.is_locked, l.properties.is_position_locked, l.properties.has_alpha_channel, l.properties.is_alpha_channel_locked, l.properties.mode, l.properties.color, l.transparency
+                        l.properties.is_visible,
+                        l.properties.is_locked,
+                        l.properties.is_position_locked,
+                        l.properties.has_alpha_channel,
+                        l.properties.is_alpha_channel_locked,
+                        l.properties.mode,
+                        l.properties.color,
+                        l.transparency
                     ),
                     size: (l.get_width(), l.get_height()),
                     offset: (l.get_base_offset().x, l.get_base_offset().y),
@@ -357,55 +470,60 @@ fn run(case: &Case08) -> Verdict {
             json!({"phase": phase, "field": field, "difference": detail, "undo_stack_len": at_len, "ops": kinds}),
         )
     };
-    // ---- undo everything the history pushed
-    while st.undo_stack_len() > l0 {
-        let before = st.undo_stack_len();
-        if std::env::var_os("VERIF_C08_TRACE").is_some() {
-            eprintln!("undo at len {before} can_redo={} layers={:?}", st.can_redo(), st.get_buffer().layers.iter().map(|l| (l.get_width(), l.get_height(), l.lines.len())).collect::<Vec<_>>());
-        }
-        let r = std::panic::catch_unwind(std::panic::AssertUnwindSafe(|| st.undo()));
-        match r {
-            Err(e) => return bad("undo-panics", "panic", panic_text(e), before),
-            Ok(Err(e)) => return bad("undo-err", "error", e.to_string(), before),
-            Ok(Ok(())) => {}
-        }
-        let len = st.undo_stack_len();
-        if len >= before {
-            return bad("undo", "stack-does-not-shrink", format!("{before} -> {len}"), before);
-        }
-        if let Some((_, s, _)) = expect_at(len) {
-            let (f, d) = first_diff(s, &snap(&st));
-            if f != "none" {
-                return bad("undo", &f, d, len);
+    // two complete rounds: a record that only works the first time it is undone / redone (state moved out of the
+    // record, swapped instead of copied) shows up in the second round ("...-again" phases)
+    for round in 0..2 {
+        let ph = |p: &str| -> String { if round == 0 { p.to_string() } else { format!("{p}-again") } };
+        // ---- undo everything the history pushed
+        while st.undo_stack_len() > l0 {
+            let before = st.undo_stack_len();
+            if std::env::var_os("VERIF_C08_TRACE").is_some() {
+                eprintln!("undo at len {before} can_redo={} layers={:?}", st.can_redo(), st.get_buffer().layers.iter().map(|l| (l.get_width(), l.get_height(), l.lines.len())).collect::<Vec<_>>());
+            }
+            let r = std::panic::catch_unwind(std::panic::AssertUnwindSafe(|| st.undo()));
+            match r {
+                Err(e) => return bad(&ph("undo-panics"), "panic", panic_text(e), before),
+                Ok(Err(e)) => return bad(&ph("undo-err"), "error", e.to_string(), before),
+                Ok(Ok(())) => {}
+            }
+            let len = st.undo_stack_len();
+            if len >= before {
+                return bad(&ph("undo"), "stack-does-not-shrink", format!("{before} -> {len}"), before);
+            }
+            if let Some((_, s, _)) = expect_at(len) {
+                let (f, d) = first_diff(s, &snap(&st));
+                if f != "none" {
+                    return bad(&ph("undo"), &f, d, len);
+                }
             }
         }
-    }
-    // ---- redo everything
-    while st.can_redo() && st.undo_stack_len() < final_len {
-        let before = st.undo_stack_len();
-        if std::env::var_os("VERIF_C08_TRACE").is_some() {
-            eprintln!("redo at len {before} can_redo={} layers={:?}", st.can_redo(), st.get_buffer().layers.iter().map(|l| (l.get_width(), l.get_height(), l.lines.len())).collect::<Vec<_>>());
-        }
-        let r = std::panic::catch_unwind(std::panic::AssertUnwindSafe(|| st.redo()));
-        match r {
-            Err(e) => return bad("redo-panics", "panic", panic_text(e), before),
-            Ok(Err(e)) => return bad("redo-err", "error", e.to_string(), before),
-            Ok(Ok(())) => {}
-        }
-        let len = st.undo_stack_len();
-        if let Some((_, s, _)) = expect_at(len) {
-            let (f, d) = first_diff(s, &snap(&st));
-            if f != "none" {
-                return bad("redo", &f, d, len);
+        // ---- redo everything
+        while st.can_redo() && st.undo_stack_len() < final_len {
+            let before = st.undo_stack_len();
+            if std::env::var_os("VERIF_C08_TRACE").is_some() {
+                eprintln!("redo at len {before} can_redo={} layers={:?}", st.can_redo(), st.get_buffer().layers.iter().map(|l| (l.get_width(), l.get_height(), l.lines.len())).collect::<Vec<_>>());
+            }
+            let r = std::panic::catch_unwind(std::panic::AssertUnwindSafe(|| st.redo()));
+            match r {
+                Err(e) => return bad(&ph("redo-panics"), "panic", panic_text(e), before),
+                Ok(Err(e)) => return bad(&ph("redo-err"), "error", e.to_string(), before),
+                Ok(Ok(())) => {}
+            }
+            let len = st.undo_stack_len();
+            if let Some((_, s, _)) = expect_at(len) {
+                let (f, d) = first_diff(s, &snap(&st));
+                if f != "none" {
+                    return bad(&ph("redo"), &f, d, len);
+                }
             }
         }
-    }
-    if st.undo_stack_len() != final_len {
-        return bad("redo", "stack-length", format!("{} after redoing everything, {} before", st.undo_stack_len(), final_len), final_len);
-    }
-    let (f, d) = first_diff(&s_final, &snap(&st));
-    if f != "none" {
-        return bad("redo", &f, d, final_len);
+        if st.undo_stack_len() != final_len {
+            return bad(&ph("redo"), "stack-length", format!("{} after redoing everything, {} before", st.undo_stack_len(), final_len), final_len);
+        }
+        let (f, d) = first_diff(&s_final, &snap(&st));
+        if f != "none" {
+            return bad(&ph("redo"), &f, d, final_len);
+        }
     }
     // ---- random walk over undo / redo
     let mut rng = Rng::new(case.walk);
@@ -505,6 +623,25 @@ const H: i32 = 8;
 fn gen_doc(rng: &mut Rng) -> DocD {
     let mut d = DocD::single(W, H);
     d.layers.clear();
+    // buffer modes: every font mode (the font operations branch on it), every ice mode, every palette mode
+    d.font_mode = *rng.pick(&[0u8, 0, 0, 1, 2, 3]);
+    d.ice = *rng.pick(&[0u8, 1, 1, 2, 2]);
+    d.palette_mode = *rng.pick(&[0u8, 1, 1, 2, 3]);
+    // a second (and third) font so that font pages in cells mean something
+    let extra_fonts = if d.font_mode == 0 || d.font_mode == 3 { rng.usize(3) } else { 0 };
+    if extra_fonts >= 1 {
+        d.fonts.push(doc::FontD { slot: 1, name: "second".into(), height: 16, builtin: Some(1 + rng.usize(5)), data: vec![], sauce_name: None });
+    }
+    if extra_fonts >= 2 {
+        d.fonts.push(doc::FontD { slot: 5, name: "fifth".into(), height: 16, builtin: None, data: (0..256 * 16).map(|i| (i * 3) as u8).collect(), sauce_name: None });
+    }
+    if rng.chance(1, 4) {
+        d.palette = Some((0..*rng.pick(&[16usize, 16, 24, 40])).map(|i| ((i * 9) as u8, (255 - i * 5) as u8, (i * 31) as u8)).collect());
+    }
+    if rng.chance(1, 3) {
+        d.sauce = Some(doc::random_sauce(rng));
+    }
+    let max_bg = if d.ice == 1 { 8 } else { 16 };
     let n = 1 + rng.usize(3);
     for i in 0..n {
         let mut l = if i == 0 { LayerD::plain(W, H) } else { LayerD::plain(1 + rng.usize(W as usize) as i32, 1 + rng.usize(H as usize) as i32) };
@@ -515,17 +652,46 @@ fn gen_doc(rng: &mut Rng) -> DocD {
             l.oy = rng.range(-2, 5) as i32;
             l.visible = rng.chance(4, 5);
             l.locked = rng.chance(1, 8);
+            if extra_fonts >= 1 && rng.chance(1, 4) {
+                l.default_font_page = 1;
+            }
         }
         for y in 0..l.h {
             for x in 0..l.w {
                 if rng.chance(if i == 0 { 60 } else { 40 }, 100) {
-                    l.cells.push(CellD { x, y, ch: 0x41 + rng.below(26) as u32, fg: rng.below(16) as u32, bg: rng.below(8) as u32, attr: 0, fp: 0 });
+                    // glyphs the ice-mode conversion treats specially (blank, shades, half blocks, solid) among letters
+                    let ch = if rng.chance(1, 4) { *rng.pick(&[0u32, 32, 255, 176, 177, 178, 219, 220, 221, 222, 223]) } else { 0x41 + rng.below(26) as u32 };
+                    let blink = d.ice != 2 && rng.chance(1, 8);
+                    let fp = match extra_fonts {
+                        0 => 0,
+                        1 => *rng.pick(&[0u16, 0, 0, 1]),
+                        _ => *rng.pick(&[0u16, 0, 1, 5]),
+                    };
+                    l.cells.push(CellD { x, y, ch, fg: rng.below(16) as u32, bg: rng.below(max_bg) as u32, attr: if blink { icy_engine::attribute::BLINK } else { 0 }, fp });
                 }
             }
         }
         d.layers.push(l);
     }
     d
+}
+
+/// the three documents of the exhaustive part: (0) unlimited fonts with three fonts in use, 2+ layers;
+/// (1) single-font ice document; (2) blink-mode document with more than one layer
+fn fixed_doc(dsel: u64) -> DocD {
+    for i in 0..10_000u64 {
+        let mut drng = Rng::new(0xD0C0 + dsel + 16 * i);
+        let d = gen_doc(&mut drng);
+        let ok = match dsel {
+            0 => d.font_mode == 0 && d.fonts.len() == 2 && d.layers.len() >= 2,
+            1 => d.font_mode == 2 && d.ice == 2,
+            _ => d.ice == 1 && d.layers.len() >= 2 && d.font_mode != 0,
+        };
+        if ok {
+            return d;
+        }
+    }
+    gen_doc(&mut Rng::new(0xD0C0 + dsel))
 }
 
 fn pos(rng: &mut Rng) -> (i32, i32) {
@@ -544,7 +710,20 @@ fn layer_idx(rng: &mut Rng) -> usize {
 }
 
 pub fn gen_op(rng: &mut Rng) -> EOp {
-    match rng.usize(58) {
+    match rng.usize(71) {
+        58 => EOp::SetSauceFont(rng.usize(40)),
+        59 => EOp::AddFont(rng.below(8) as u8),
+        60 => EOp::SetFont(rng.below(8) as u8),
+        61 => EOp::ReplaceFontUsage(*rng.pick(&[0usize, 1, 5, 100]), *rng.pick(&[0usize, 1, 5, 7])),
+        62 => EOp::ChangeFontSlot(*rng.pick(&[0usize, 1, 5, 100]), *rng.pick(&[0usize, 1, 2, 5, 9])),
+        63 => EOp::RemoveFont(*rng.pick(&[0usize, 1, 1, 5, 100, 7])),
+        64 => EOp::SwitchToPalette(rng.below(12) as u8),
+        65 => EOp::UpdateSauce(rng.below(256) as u8),
+        66 => EOp::UpdateLayerProps(layer_idx(rng), rng.below(256) as u8),
+        67 => EOp::AddFloatingLayer,
+        68 => EOp::PasteSixel(*rng.pick(&[1, 8, 9, 20]), *rng.pick(&[1, 16, 17, 6])),
+        69 => EOp::UndoCaretPosition,
+        70 => EOp::SetIceMode(rng.usize(3) as u8),
         0 | 1 => EOp::SetCurrentLayer(layer_idx(rng)),
         2 | 3 => {
             let p = pos(rng);
@@ -552,7 +731,7 @@ pub fn gen_op(rng: &mut Rng) -> EOp {
         }
         4..=8 => {
             let p = pos(rng);
-            EOp::SetChar(p.0, p.1, 0x30 + rng.below(10) as u32, rng.below(16) as u32, rng.below(8) as u32)
+            EOp::SetChar(p.0, p.1, 0x30 + rng.below(10) as u32, rng.below(16) as u32, rng.below(16) as u32)
         }
         9 => {
             let (a, b) = (pos(rng), pos(rng));
@@ -667,12 +846,26 @@ fn alphabet() -> Vec<EOp> {
         EOp::SetAnsiFont(1),
         EOp::AddAnsiFont(2),
         EOp::SwitchFontPage(1),
+        EOp::SetIceMode(1),
+        EOp::SetSauceFont(3),
+        EOp::AddFont(1),
+        EOp::SetFont(2),
+        EOp::ReplaceFontUsage(1, 0),
+        EOp::ChangeFontSlot(1, 5),
+        EOp::RemoveFont(1),
+        EOp::SwitchToPalette(2),
+        EOp::UpdateSauce(5),
+        EOp::UpdateLayerProps(0, 0b1010_1010),
+        EOp::AddFloatingLayer,
+        EOp::PasteSixel(9, 17),
+        EOp::UndoCaretPosition,
     ]
 }
 
 #[derive(Default)]
 pub struct C08 {
     alpha: Vec<EOp>,
+    fixed: Vec<DocD>,
     n_exh: u64,
     n_triples_sampled: bool,
 }
@@ -698,8 +891,7 @@ impl C08 {
                 }
                 vec![self.alpha[(q / (n * n)) as usize].clone(), self.alpha[((q / n) % n) as usize].clone(), self.alpha[(q % n) as usize].clone()]
             };
-            let mut drng = Rng::new(0xD0C0 + dsel);
-            return Case08 { doc: gen_doc(&mut drng), ops, walk: k };
+            return Case08 { doc: self.fixed[dsel as usize].clone(), ops, walk: k };
         }
         let long = rng.chance(1, 4);
         let len = 1 + rng.usize(if long { 40 } else { 8 });
@@ -781,7 +973,7 @@ impl Prop for C08 {
         "C08"
     }
     fn rule(&self) -> &'static str {
-        "a history is a sequence of public EditState operations (set/swap char, add/remove/raise/lower/duplicate/clear/merge/toggle/move/resize layer, resize buffer with and without layers, crop, selection set/clear/add-to-mask/inverse, erase, flip x/y, justify, center, insert/delete row and column, erase row/column, scroll area, rotate, make transparent, stamp down, paste and anchor, ice/palette mode and font changes, plus current-layer / caret changes) on a 12x8 document of 1..=3 layers (alpha, offset, hidden, locked). After every operation that returns Ok the harness records (undo stack length, snapshot of buffer size, modes, palette, fonts, SAUCE and per layer order, properties, size, offset, default font page and every cell TextPane::get_char shows within the layer's size; content hidden by a smaller size becomes observable, and is then compared, when a later undo grows the size back). It then undoes everything (undo must return Ok, never panic, shrink the stack; at every length that equals an operation boundary the snapshot of that boundary must be back), redoes everything (same check, final snapshot), takes a random undo/redo walk, and checks that a new edit after an undo (set_char or an operation drawn from the whole alphabet that records an undo entry) clears the redo history. Exhaustive: all histories of length 1 and 2 over a 54-operation instantiated alphabet on 3 documents (length 3: thorough complete, quick sampled); random histories up to length 40. An operation that returns Err ends the history; one that panics is outside C08 (counted). distinct_nontrivial = distinct (op-kind sequence, undo depth) histories that changed the document"
+        "a history is a sequence of public EditState operations (set/swap char, add/remove/raise/lower/duplicate/clear/merge/toggle/move/resize layer, resize buffer with and without layers, crop, selection set/clear/add-to-mask/inverse, erase, flip x/y, justify, center, insert/delete row and column, erase row/column, scroll area, rotate, make transparent, stamp down, paste (clipboard cells and sixel images) and anchor, floating layers, layer properties, ice/palette mode, palette replacement, SAUCE data and font changes (ANSI / SAUCE / custom fonts set and added, font usage replaced, font slots moved and removed), plus current-layer / caret changes) on a 12x8 document of 1..=3 layers (alpha, offset, hidden, locked; every font mode, ice mode and palette mode, up to three fonts with cells on pages 0/1/5, bright backgrounds and blinking cells, shade / half-block / solid glyphs, custom palettes, with and without SAUCE). After every operation that returns Ok the harness records (undo stack length, snapshot of buffer size, modes, palette, fonts, SAUCE and per layer order, properties, size, offset, default font page and every cell TextPane::get_char shows within the layer's size; content hidden by a smaller size becomes observable, and is then compared, when a later undo grows the size back). It then undoes everything (undo must return Ok, never panic, shrink the stack; at every length that equals an operation boundary the snapshot of that boundary must be back), redoes everything (same check, final snapshot), does both rounds a second time (a record must survive being undone and redone repeatedly), takes a random undo/redo walk, and checks that a new edit after an undo (set_char or an operation drawn from the whole alphabet that records an undo entry) clears the redo history. Exhaustive: all histories of length 1 and 2 over a 67-operation instantiated alphabet on 3 documents (length 3: thorough complete, quick sampled); random histories up to length 40. An operation that returns Err ends the history; one that panics is outside C08 (counted). distinct_nontrivial = distinct (op-kind sequence, undo depth) histories that changed the document"
     }
     fn meta(&self, ctx: &Ctx) -> Value {
         json!({"floor_evaluations": 5000, "floor_distinct": ctx.tier.pick(2000u64, 50000u64),
@@ -789,6 +981,7 @@ impl Prop for C08 {
     }
     fn total(&mut self, ctx: &Ctx) -> u64 {
         self.alpha = alphabet();
+        self.fixed = (0..3).map(fixed_doc).collect();
         let n = self.alpha.len() as u64;
         let full3 = n * n * n;
         self.n_triples_sampled = ctx.tier == crate::ctx::Tier::Quick;
